@@ -56,11 +56,22 @@ Proof.
   now rewrite (proper_prefix_incomplete _ _ p q (length p) He E Hq).
 Qed.
 
-(* ---- the Framed loop: append a chunk, deliver every complete frame, keep the remainder ---- *)
+(* ---- the Framed loop: append a chunk, deliver every complete frame, keep the remainder ----
+   Generic in the decoder: everything below uses only "empty buffer needs more", "exact consumption" and
+   "a proper prefix needs more", so it applies to decode_inner as it was and to the repaired decoder alike. *)
 Inductive event := Deliver (v : N * tree * list ctrl) | EvError | EvPanic.
+
+Section Framed.
+Variable dec : list byte -> dres.
+Variable Enc : N * tree * list ctrl -> list byte -> Prop.      (* "bs is an encoding of a message the client must see as v" *)
+Hypothesis Enc_nonempty : forall v bs, Enc v bs -> bs <> [].
+Hypothesis dec_nil : dec [] = DNeed.
+Hypothesis dec_exact : forall v bs rest, Enc v bs -> dec (bs ++ rest) = view_frame v rest.
+Hypothesis dec_prefix : forall v bs p q, Enc v bs -> p ++ q = bs -> q <> [] -> dec p = DNeed.
+
 Fixpoint drain (fuel : nat) (buf : list byte) : list event * option (list byte) :=   (* None = stream terminated *)
   match fuel with O => ([], Some buf) | S f =>
-    match decode_inner buf with
+    match dec buf with
     | DNeed => ([], Some buf)
     | DErr => ([EvError], None)
     | DPanic => ([EvPanic], None)
@@ -72,18 +83,17 @@ Fixpoint framed_run (buf : list byte) (chunks : list (list byte)) : list event :
     | (evs, None) => evs end end.
 
 (* the stream: messages and one encoding of each *)
-Definition Stream (vs : list (N * tree * list ctrl)) (bss : list (list byte)) : Prop :=
-  Forall2 (fun v bs => exists env, WfMsg env v /\ BerEnc env bs) vs bss.
+Definition Stream (vs : list (N * tree * list ctrl)) (bss : list (list byte)) : Prop := Forall2 Enc vs bss.
 
 Lemma drain_messages vs bss : Stream vs bss -> forall p fuel,
-  (p = [] \/ exists v bs q env, WfMsg env v /\ BerEnc env bs /\ p ++ q = bs /\ q <> []) ->
+  (p = [] \/ exists v bs q, Enc v bs /\ p ++ q = bs /\ q <> []) ->
   (length vs < fuel)%nat ->
   drain fuel (concat bss ++ p) = (map Deliver vs, Some p).
 Proof.
-  induction 1 as [|v bs vs bss (env & Hw & He) _ IH]; intros p fuel Hp Hf; (destruct fuel as [|fuel]; [lia|]); cbn [concat app drain map].
-  - destruct Hp as [->|(v & bs & q & env & Hw & He & E & Hq)]; [reflexivity|].
-    now rewrite (c06_prefix_needs_more env v bs p q Hw He E Hq).
-  - rewrite <- app_assoc, (c06_exact_consumption env v bs _ Hw He). destruct v as [[mid op] cs]. cbn [view_frame].
+  induction 1 as [|v bs vs bss He _ IH]; intros p fuel Hp Hf; (destruct fuel as [|fuel]; [lia|]); cbn [concat app drain map].
+  - destruct Hp as [->|(v & bs & q & He & E & Hq)]; [now rewrite dec_nil|].
+    now rewrite (dec_prefix v bs p q He E Hq).
+  - rewrite <- app_assoc, (dec_exact v bs _ He). destruct v as [[mid op] cs]. cbn [view_frame].
     cbn [length] in Hf. rewrite (IH p fuel Hp ltac:(lia)). reflexivity.
 Qed.
 
@@ -91,16 +101,16 @@ Qed.
 Lemma split_prefix vs bss : Stream vs bss -> forall B tail, B ++ tail = concat bss ->
   exists vs1 bss1 vs2 bss2 p, vs = vs1 ++ vs2 /\ bss = bss1 ++ bss2 /\ Stream vs1 bss1 /\ Stream vs2 bss2 /\
     B = concat bss1 ++ p /\ p ++ tail = concat bss2 /\
-    (p = [] \/ exists v bs q env, WfMsg env v /\ BerEnc env bs /\ p ++ q = bs /\ q <> [] /\ hd_error bss2 = Some bs).
+    (p = [] \/ exists v bs q, Enc v bs /\ p ++ q = bs /\ q <> [] /\ hd_error bss2 = Some bs).
 Proof.
-  induction 1 as [|v bs vs bss Hx Hs IH]; intros B tail E.
+  induction 1 as [|v bs vs bss He Hs IH]; intros B tail E.
   - cbn in E. apply app_eq_nil in E as [-> ->]. exists [], [], [], [], []. repeat split; try reflexivity; try (now left); constructor.
-  - cbn [concat] in E. destruct Hx as (env & Hw & He).
+  - cbn [concat] in E.
     destruct (Nat.lt_ge_cases (length B) (length bs)) as [Hlt|Hge].
     + (* B is a proper prefix of the first message *)
       exists [], [], (v :: vs), (bs :: bss), B.
       split; [reflexivity|]. split; [reflexivity|]. split; [constructor|].
-      split; [constructor; [now exists env|assumption]|]. split; [reflexivity|]. split; [exact E|].
+      split; [constructor; assumption|]. split; [reflexivity|]. split; [exact E|].
       destruct B as [|b0 B']; [now left|right].
       assert (Hq : exists q, (b0 :: B') ++ q = bs /\ q <> []).
       { exists (skipn (length (b0 :: B')) bs). split.
@@ -109,7 +119,7 @@ Proof.
           rewrite firstn_app in E. replace (length (b0 :: B') - length bs)%nat with 0%nat in E by lia.
           cbn [firstn] in E. now rewrite app_nil_r in E.
         - intros Hn. apply (f_equal (@length byte)) in Hn. rewrite skipn_length in Hn. cbn [length] in *. lia. }
-      destruct Hq as (q & Eq & Hq). exists v, bs, q, env. repeat split; try assumption.
+      destruct Hq as (q & Eq & Hq). exists v, bs, q. repeat split; try assumption.
     + (* B covers the first message *)
       assert (HB : B = bs ++ skipn (length bs) B).
       { rewrite <- (firstn_skipn (length bs) B) at 1. f_equal.
@@ -119,32 +129,32 @@ Proof.
       set (B' := skipn (length bs) B) in *. rewrite HB, <- app_assoc in E. apply app_inv_head in E.
       destruct (IH B' tail E) as (vs1 & bss1 & vs2 & bss2 & p & -> & -> & S1 & S2 & EB & Ep & Hp).
       exists (v :: vs1), (bs :: bss1), vs2, bss2, p.
-      split; [reflexivity|]. split; [reflexivity|]. split; [constructor; [now exists env|assumption]|].
+      split; [reflexivity|]. split; [reflexivity|]. split; [constructor; assumption|].
       split; [assumption|]. split; [rewrite HB, EB; cbn [concat]; now rewrite app_assoc|]. split; assumption.
 Qed.
 
 Theorem c06_chunking_invariant : forall chunks buf vs1 bss1,
   Stream vs1 bss1 ->
-  (buf = [] \/ exists v bs q env, WfMsg env v /\ BerEnc env bs /\ buf ++ q = bs /\ q <> [] /\ hd_error bss1 = Some bs) ->
+  (buf = [] \/ exists v bs q, Enc v bs /\ buf ++ q = bs /\ q <> [] /\ hd_error bss1 = Some bs) ->
   buf ++ concat chunks = concat bss1 ->
   framed_run buf chunks = map Deliver vs1.
 Proof.
   induction chunks as [|c cs IH]; intros buf vs1 bss1 S1 Hbuf E.
   - cbn [concat] in E. rewrite app_nil_r in E. cbn [framed_run].
-    destruct Hbuf as [->|(v & bs & q & env & _ & _ & Eq & Hq & Hh)].
-    + destruct S1 as [|v' bs' vs' bss' (env & _ & He) _]; [reflexivity|]. cbn [concat] in E.
-      apply BerEnc_nonempty in He. destruct bs'; [congruence|discriminate].
+    destruct Hbuf as [->|(v & bs & q & _ & Eq & Hq & Hh)].
+    + destruct S1 as [|v' bs' vs' bss' He _]; [reflexivity|]. cbn [concat] in E.
+      apply Enc_nonempty in He. destruct bs'; [congruence|discriminate].
     + exfalso. destruct bss1 as [|bs' bss']; [discriminate|]. cbn in Hh. injection Hh as ->. cbn [concat] in E.
       subst bs. rewrite <- app_assoc in E. rewrite <- (app_nil_r buf) in E at 1. apply app_inv_head in E.
       symmetry in E. apply app_eq_nil in E as [-> _]. congruence.
   - cbn [concat] in E. rewrite app_assoc in E. cbn [framed_run].
     destruct (split_prefix _ _ S1 (buf ++ c) (concat cs) E) as (va & ba & vb & bb & p & -> & -> & Sa & Sb & EB & Ep & Hp).
-    assert (Hp' : p = [] \/ exists v bs q env, WfMsg env v /\ BerEnc env bs /\ p ++ q = bs /\ q <> []).
-    { destruct Hp as [->|(v & bs & q & env & Hw & He & Eq & Hq & _)]; [now left|right; now exists v, bs, q, env]. }
+    assert (Hp' : p = [] \/ exists v bs q, Enc v bs /\ p ++ q = bs /\ q <> []).
+    { destruct Hp as [->|(v & bs & q & He & Eq & Hq & _)]; [now left|right; now exists v, bs, q]. }
     assert (Hfuel : (length va < S (length (buf ++ c)))%nat).
     { assert (L2 : (length va <= length (concat ba))%nat).
-      { clear - Sa. induction Sa as [|v bs vs bss (env & _ & He) _ IHs]; cbn; [lia|]. rewrite app_length.
-        apply BerEnc_nonempty in He. destruct bs; [congruence|cbn; lia]. }
+      { clear - Sa Enc_nonempty. induction Sa as [|v bs vs bss He _ IHs]; cbn; [lia|]. rewrite app_length.
+        apply Enc_nonempty in He. destruct bs; [congruence|cbn; lia]. }
       rewrite EB, app_length. lia. }
     rewrite EB in Hfuel |- *. rewrite (drain_messages _ _ Sa p _ Hp' Hfuel).
     rewrite map_app. f_equal. apply (IH p vb bb Sb Hp Ep).
@@ -153,5 +163,28 @@ Qed.
 Corollary c06_any_segmentation vs bss chunks : Stream vs bss -> concat chunks = concat bss ->
   framed_run [] chunks = map Deliver vs.
 Proof. intros S E. apply (c06_chunking_invariant chunks [] vs bss S); auto. Qed.
-Print Assumptions c06_any_segmentation.
-Print Assumptions c06_prefix_needs_more.
+End Framed.
+
+(* instance: the decoder as it was before the repairs *)
+Definition EncAsIs (v : N * tree * list ctrl) (bs : list byte) : Prop := exists env, WfMsg env v /\ BerEnc env bs.
+Corollary c06_any_segmentation_as_is vs bss chunks : Stream EncAsIs vs bss -> concat chunks = concat bss ->
+  framed_run decode_inner [] chunks = map Deliver vs.
+Proof.
+  apply (c06_any_segmentation decode_inner EncAsIs).
+  - intros v bs (env & _ & He). now apply BerEnc_nonempty in He.
+  - reflexivity.
+  - intros v bs rest (env & Hw & He). now apply (c06_exact_consumption env).
+  - intros v bs p q (env & Hw & He). now apply (c06_prefix_needs_more env v).
+Qed.
+Print Assumptions c06_any_segmentation_as_is.
+
+(* executable variant used by the correspondence runner: also returns the bytes left in the buffer (None once the stream terminated) *)
+Fixpoint framed_run_buf (dec : list byte -> dres) (buf : list byte) (chunks : list (list byte)) : list event * option (list byte) :=
+  match chunks with [] => ([], Some buf) | c :: cs =>
+    match drain dec (S (length (buf ++ c))) (buf ++ c) with
+    | (evs, Some b) => let (evs', b') := framed_run_buf dec b cs in (evs ++ evs', b')
+    | (evs, None) => (evs, None) end end.
+Lemma framed_run_buf_events dec : forall chunks buf, fst (framed_run_buf dec buf chunks) = framed_run dec buf chunks.
+Proof. induction chunks as [|c cs IH]; intros buf; cbn [framed_run_buf framed_run]; [reflexivity|].
+  destruct (drain dec (S (length (buf ++ c))) (buf ++ c)) as [evs [b|]]; [|reflexivity].
+  specialize (IH b). destruct (framed_run_buf dec b cs) as [evs' b']. cbn [fst] in *. now rewrite IH. Qed.
